@@ -4,6 +4,7 @@ import (
 	"fmt"
 	"sort"
 	"strings"
+	"sync"
 
 	"github.com/anishathalye/porcupine"
 	"github.com/biogo/hts/bgzf"
@@ -25,6 +26,12 @@ func init() {
 		Rule:   "bfs: breadth-first search to a fixpoint over histories of {Put(base in 0..2, used/unused; a fresh block or the block the cache last handed back, overwritten with the new member as the Reader does), Get, Peek, Len, Cap, Resize(1..3), Drop(0..2), Free(0..2)} for each cache kind {LRU,FIFO,Random,StatsRecorder(LRU),StatsRecorder(FIFO),StatsRecorder(Random)} x initial capacity 1..3; Random's map iteration order is an explorer choice, all orders taken; state key = capacity, policy queue (keys, bases, used flags, which entry aliases the block in the caller's hand), hand; each transition compared with the list model (result, queue order, table consistency, handed-out block no longer indexed, Len<=Cap, StatsRecorder counters). conc: all interleavings (no preemption bound) of 2-3 threads x 1-2 ops from {Put new used/unused block at base 0/1, Get, Peek, Len, Drop(1), Resize(1)} on caches pre-filled with 0..2 blocks; history of call/return events checked with porcupine. Non-trivial: bfs transitions that change or query a non-empty cache; conc executions with at least one choice point.",
 		Gen:    c14gen,
 		Direct: c14direct,
+		Build: func(sp Spec, p *ev.Part) *vsched.Scenario {
+			if sp.Kind == "conc" {
+				return c14concScenario(sp)
+			}
+			return nil // bfs scenarios drive the scheduler themselves
+		},
 	})
 }
 
@@ -123,8 +130,6 @@ func c14direct(sp Spec, p *ev.Part, known func(string) bool) {
 	switch sp.Kind {
 	case "bfs":
 		c14bfs(sp, p, known)
-	case "conc":
-		c14conc(sp, p, known)
 	}
 }
 
@@ -545,12 +550,13 @@ type concEvent struct {
 	call, retn int64
 }
 
-func c14conc(sp Spec, p *ev.Part, known func(string) bool) {
+func c14concScenario(sp Spec) *vsched.Scenario {
 	var pr c14concParams
 	mustParams(sp, &pr)
 	var events []concEvent
 	var pool []bgzf.Block
 	var clock int64
+	var hmu sync.Mutex // history log: shared by the threads (matters only when running free)
 	var initial cmodel
 	body := func() {
 		events = events[:0]
@@ -607,8 +613,10 @@ func c14conc(sp Spec, p *ev.Part, known func(string) bool) {
 				for _, j := range jobs[ti] {
 					e := concEvent{thread: ti, op: j.op}
 					e.res.ID = -1
+					hmu.Lock()
 					clock++
 					e.call = clock
+					hmu.Unlock()
 					switch j.op.Op {
 					case "Put":
 						evd, ret := c.Put(j.blk)
@@ -629,9 +637,11 @@ func c14conc(sp Spec, p *ev.Part, known func(string) bool) {
 					case "Resize":
 						extCache(c).Resize(j.op.N)
 					}
+					hmu.Lock()
 					clock++
 					e.retn = clock
 					events = append(events, e)
+					hmu.Unlock()
 				}
 				done.Send(ti)
 			})
@@ -676,34 +686,5 @@ func c14conc(sp Spec, p *ev.Part, known func(string) bool) {
 			return "", "", label
 		},
 	}
-	sc.Name = sp.String()
-	sc.Bound = -1
-	sc.Known = known
-	if sp.Choices != nil { // replay of one schedule
-		o, div := vsched.Replay(sc, sp.Choices)
-		if div != "" {
-			p.Infra = div
-			return
-		}
-		if sig, msg, _ := sc.Check(&o); sig != "" {
-			p.Violate(sig, msg, sp)
-		}
-		return
-	}
-	st, failure, err := vsched.Explore(sc)
-	if err != nil {
-		p.Infra = err.Error()
-		return
-	}
-	foldStats(sp, p, &st)
-	if failure != nil {
-		c := sp
-		c.Choices = failure.Choices
-		p.Violate(failure.Sig, fmt.Sprintf("%s\nscenario: %s\nschedule: %v", failure.Msg, sp, failure.Choices), c)
-	}
-	for sig, n := range st.KnownHits {
-		for i := 0; i < n; i++ {
-			p.Violate(sig, "known finding observed in "+sp.String(), sp)
-		}
-	}
+	return sc
 }
